@@ -208,7 +208,18 @@ Definition track_op (cfg : config) (m : mst) (o : op) (ob : opobs) : mst :=
       match nth_error (m_reqs m) r with
       | Some x => match ri_stat x with
                   | SDone | SCancelled => m
-                  | _ => ri_upd (fun y => set_ri_pend false (set_ri_stat SCancelled
+                  | _ =>
+                      (* a request dropped while it still holds the connection its Issue took out of the idle
+                         list hands that connection back to the pool at this instant (C05: "closed before it
+                         was handed back to the pool") *)
+                      let m := match ri_stat x, ri_popx x with
+                               | SLive, Some c =>
+                                   (* non-multiplexed connections only: they have a single handle *)
+                                   match nth_error (m_conns m) c with
+                                   | Some y => if ci_share y then m else ci_upd (set_ci_back (m_i m)) c m
+                                   | None => m end
+                               | _, _ => m end in
+                      ri_upd (fun y => set_ri_pend false (set_ri_stat SCancelled
                                    (match ri_stat y, ri_dial y with SLive, DsFlying => set_ri_aband true y | _, _ => y end))) r m
                   end
       | None => m
